@@ -21,7 +21,7 @@ pub static PROP: Prop = Prop {
         "open finding D13 (planner search not exhaustive): corpus inputs are listed individually in known_findings.json; in seeded exploration a sub-optimal result is attributed to it only if the planner priced the plan it selected, the encoder realised it and the list lookup was right (hook H1)",
     ],
     extra,
-    fuzz_runs: 20000,
+    fuzz_runs: 60000,
 };
 
 static COUNTS: std::sync::Mutex<std::collections::BTreeMap<&'static str, u64>> = std::sync::Mutex::new(std::collections::BTreeMap::new());
